@@ -131,6 +131,43 @@ pub fn run(ctx: &Ctx) -> (Stats, Report) {
     st.exhaustive_sections.push("every (year 1..=9999, day-of-year 0..=367) through YYYY DDD, DDD/YYYY, YYYYDDD".into());
     st.section("year_x_day_of_year", &mut mark);
 
+    // E1a2: year-month interval texts in every field order with a sign on either field: the sign
+    // of the interval is the sign of the year field; a minus sign on the month puts it outside
+    // 0..=11 (no value), a plus sign is a plain number; month 12 and a total past the limit denote
+    // no value either
+    {
+        let mut n = 0u64;
+        'ym: for y in [0i128, 1, 5, 12, 9999, 177_999_999, 178_000_000] {
+            for m in 0..=12i128 {
+                for ys in ["", "+", "-"] {
+                    for ms in ["", "+", "-"] {
+                        let total = (y * 12 + m) * if ys == "-" { -1 } else { 1 };
+                        let want = if ms == "-" || m > 11 || total.abs() > 178_000_000 * 12 { None } else { Some(total) };
+                        let variants: [(&str, String); 5] = [
+                            ("MM-YYYY", format!("{ms}{m}-{ys}{y}")),
+                            ("MM YYYY", format!("{ms}{m:02} {ys}{y}")),
+                            ("MM/YYYY", format!("{ms}{m}/{ys}{y}")),
+                            ("YYYY-MM", format!("{ys}{y}-{ms}{m:02}")),
+                            ("YYYY MM", format!("{ys}{y} {ms}{m}")),
+                        ];
+                        for (pic, text) in variants.iter() {
+                            n += 1;
+                            st.evaluations += 1;
+                            st.nontrivial_enum += 1;
+                            st.class(if ms == "-" { "interval-month-with-minus-sign" } else { "interval-fields-in-another-order" });
+                            if let Err(msg) = check_parse(Kind::YM, pic, text, want) {
+                                st.fail(n, case_of(Kind::YM, pic, text, want), msg);
+                                break 'ym;
+                            }
+                        }
+                    }
+                }
+            }
+        }
+        st.exhaustive_sections.push("year-month interval texts: 7 year values x months 0..=12 x sign on the year x sign on the month x 5 field orders / separators".into());
+    }
+    st.section("interval_field_orders_and_signs", &mut mark);
+
     // E1b: every date through five pictures
     let s = par_sweep(c.len() as u64, 1 << 11, |range, st| {
         for i in range {
